@@ -2582,8 +2582,49 @@ def run(chk, cases=None):
                     "n_disagreeing_cases": len(nfi),
                     "what": "implementation differs from the model but every explored output satisfies the property's reading"},
                    no_failing_input=True)
+    zero_mass_categories(chk)
     from props.c19_tie import source_tie  # source tie: the translated sampler / binomial_coefficient, interpreted inside Coq
     source_tie(chk, cases, [ev["impl"] for ev in evs])
+
+
+def zero_mass_categories(chk):
+    """Round-5 miss C19-i (dimension: non-finite but legal parameters).  A relaxed categorical built from `logits=` with a
+    masked-out class (logit -inf, probability exactly 0) is a legal distribution; the model's fixed-point logits have no
+    -inf, so these cases are judged by the definition in the property text: over the one-hot support the thresholded
+    probabilities are softmax(logits) - exactly 0 for the masked class, summing to one, never NaN."""
+    from pydrobert.torch import distributions as PD
+    rng, n, bad = chk.rng, 0, []
+    for V in (2, 3, 4):
+        for B in (1, 2):
+            for _ in range(6 if chk.tier == "quick" else 40):
+                rows = []
+                for _b in range(B):
+                    row = [rng.randint(-24, 24) / 8 for _v in range(V)]
+                    for k in rng.sample(range(V), rng.randint(1, V - 1)):
+                        row[k] = float("-inf")
+                    rows.append(row)
+                lg = torch.tensor(rows, dtype=torch.float64)
+                want = torch.log_softmax(lg, -1)
+                n += 1
+                try:
+                    with warnings.catch_warnings():
+                        warnings.simplefilter("ignore")
+                        d = PD.GumbelOneHotCategorical(logits=lg)
+                        got = torch.stack([d.tlog_prob(torch.eye(V, dtype=torch.float64)[k].expand(B, V)) for k in range(V)], -1)
+                    ok = bool(torch.isnan(got).sum() == 0) and bool(((got == want) | ((got - want).abs() <= 1e-9)).all()) \
+                        and bool(((got.exp().sum(-1) - 1).abs() <= 1e-9).all())
+                    impl = got.tolist()
+                except Exception as e:  # noqa: BLE001
+                    ok, impl = False, "raised " + exc_kind(e) + ": " + str(e)[:120]
+                chk.count("zero-mass-category")
+                if not ok:
+                    bad.append({"logits": [[str(x) for x in r] for r in rows], "impl_tlog_prob_of_each_one_hot": str(impl),
+                                "expected_log_softmax": [[str(x) for x in r] for r in want.tolist()]})
+    chk.evaluations += n
+    if bad:
+        chk.report({"case": bad[0], "n_failing": len(bad), "correspondence": CORR + "relaxed:zero-mass-category",
+                    "what": "GumbelOneHotCategorical(logits=...) with a masked-out class (logit -inf): the thresholded "
+                            "log-probabilities of the one-hot support are not log_softmax(logits) (NaN / not summing to one)"})
 
 
 def replay(chk, path):
